@@ -97,6 +97,7 @@ def gate_table(rng):
     add(("vhdx.missing-region", ["bat", "metadata"]))
     add(("vhdx.missing-item", [0, 1, 2, 3, 4]))
     add(("vhdx.foreign-locator-type", [0, 1, 2, 3]))
+    add(("vhdx.parent-of-unnamed-stream", ["bytesio", "proxy"]))
     # entries of unknown type that are marked required (region table: Required; metadata table: IsRequired, with and
     # without the IsUser / IsVirtualDisk bits): the format demands a refusal; the same entries not marked required are the control
     add(("vhdx.unknown-required-region", [0, 1, 2, 3]))
@@ -140,6 +141,7 @@ CONTROL_VALUES = {
     "vhdx.head-active-only": [(1, 0), (2, 0), ("tie", 0)],
     "hyperv.active-header-signature-only": [(1, 0), (2, 0), ("tie", 0)],
     "qcow2.data-file-missing": ["named", "unnamed"],
+    "vhdx.parent-of-unnamed-stream": ["bytesio"],
 }
 
 
@@ -271,6 +273,13 @@ def _apply(gate: str, value, control: bool, ctx, rng):
             struct.pack_into("<Q", raw, 0x20000 + 8, s2)
             if not control:
                 _flip(raw, 0x10000 if value[0] == 1 else 0x20000, value[1])
+        elif what == "parent-of-unnamed-stream":
+            # a differencing disk whose parent cannot be looked up because the stream has no name (control: not differencing)
+            loc = wvhdx.parent_locator([("relative_path", ".\\p.vhdx"), ("parent_linkage", "{83ed0ec1-24c8-49a6-a959-5e4bd1288015}")])
+            sf, _, _ = wvhdx.build(rng, block_size=MBb, sector_size=512, nblocks=2, states=[6, 0], tag=2, has_parent=not control, locator=None if control else loc,
+                                   checksums=False)
+            fh = io.BytesIO(sf.to_bytes()) if value == "bytesio" or control else as_handle(sf)
+            return call(lambda: VHDX(fh).read(512))
         elif what in ("unknown-required-region", "unknown-required-item"):
             g = bytes(rng.randrange(256) for _ in range(16))
             if what == "unknown-required-region":
